@@ -107,7 +107,7 @@ _build_state = {}
 
 
 TRANSLATOR_OUTPUTS = {"config2coq.py": "ConfigData.v", "cmake2coq.py": "CMinxCMake.v",
-                      "literals2coq.py": "SourceLiterals.v"}
+                      "literals2coq.py": "SourceLiterals.v", "py2coq.py": "PySource.v"}
 
 
 def translators():
@@ -495,6 +495,19 @@ def proof_stage(rep, pid, build_res, extra_files=()):
         gen = "theories/Gen/" + TRANSLATOR_OUTPUTS.get(k, "?")[:-2]
         if gen in deps or k not in TRANSLATOR_OUTPUTS:
             broken.append(dict(kind="translator", file=k, log=v[-800:]))
+    if rep.tier == "thorough" and aud["ok"]:
+        # independent re-check of the compiled property file and everything it depends on
+        n_obl += 1
+        rc, out = run(["timeout", "1500", "coqchk", "-silent", "-o", "-Q", "theories", "CMinx",
+                       f"CMinx.Properties.{pid}"], cwd=COQ, timeout=1600)
+        m = re.search(r"\* Axioms:(.*?)\n\s*\n\* ", out, re.S)
+        axtext = m.group(1).strip() if m else "?"
+        axioms = [] if axtext == "<none>" else [a.strip() for a in axtext.splitlines() if a.strip()]
+        rep.coverage["coqchk"] = dict(rc=rc, axioms=axioms, tail=out[-600:])
+        if rc == 0 and m and all(a.split(":")[0].strip() in ALLOWED_AXIOMS for a in axioms):
+            discharged += 1
+        else:
+            broken.append(dict(kind="coqchk", log=out[-800:]))
     rep.coverage["obligations"] = n_obl
     rep.coverage["discharged"] = discharged
     rep.coverage["checker_cmd"] = aud["checker_cmd"]
